@@ -37,7 +37,7 @@ add("C03", "exploration",
 add("C04", "exploration",
     "runtime monitoring: step-wise refinement of observed (state, Add, flag, state') transitions against the retention transition relation, plus invariants; race detector",
     "Every step of every generated history is judged: the observed transition must be one the retention/deletion specification allows (sets of allowed successors at ties and evictions), and the global invariants (capacity, distinct ids, one version per address, no ephemeral event served, Len) must hold after it. Held on the steps counted per transition class in the evidence." + RACE,
-    "Trusts kit/storespec.go CheckCacheStep; addressable events without a d tag are judged only loosely (C05); self-referencing deletion requests are not constructible with real ids.",
+    "Trusts kit/storespec.go CheckCacheStep; addressable events without a d tag are judged only loosely (C05); self-referencing deletion requests are not constructible with real ids (C05 builds them with made-up ids and leaves open whether the request itself stays).",
     "DESIGN.md section 4, C04")
 
 add("C05", "exploration",
